@@ -1071,6 +1071,19 @@ func genC14(e *emitter, r *rng, thorough bool) {
 			}
 		}
 	}
+	// 32-byte scalars at or above the group order (WIF is a codec: the bytes must come back as they went in)
+	for _, d := range []*big.Int{new(big.Int).Set(curveN), new(big.Int).Add(curveN, big.NewInt(1)), new(big.Int).Sub(new(big.Int).Lsh(big.NewInt(1), 256), big.NewInt(1)),
+		new(big.Int).Add(curveN, new(big.Int).SetBytes(r.bytes(15))), new(big.Int).Sub(curveN, big.NewInt(1)), new(big.Int)} {
+		for _, c := range []string{"0", "1"} {
+			e.emit("wif.enc.d>=N", fmt.Sprintf("wif.enc %s %s %d", nhx(d), c, 0x80))
+			w := append([]byte{0x80}, pad32(d.Bytes())...)
+			if c == "1" {
+				w = append(w, 1)
+			}
+			w = append(w, crypto.Sha256d(w)[:4]...)
+			e.emit("wif.dec.d>=N", "wif.dec "+hx([]byte(base58.Encode(w))))
+		}
+	}
 	// a valid WIF in which one character is replaced by a multi-byte UTF-8 code point with the same low byte
 	// (U+0100+c, U+2100+c): not base58, must be rejected (a decoder ranging over runes and truncating accepts it)
 	{
